@@ -38,7 +38,7 @@ def run(ctx):
         exe = lib.build_driver("c12_coords")
         env = {"VERIF_SEED": str(ctx.seed)}
         t1 = os.path.join(ctx.work, "db.ndjson")
-        lib.run_driver(exe, ["db", t1, 8 if q else 32, 0 if q else 1, ctx.work], env=env, timeout=1500)
+        lib.run_driver(exe, ["db", t1, 8 if q else 40, 0 if q else 1, ctx.work], env=env, timeout=1500)
         t2 = os.path.join(ctx.work, "arc.ndjson")
         lib.run_driver(exe, ["arc", t2, 10 if q else 40, 0 if q else 1], env=env, timeout=900)
         traces = [t1, t2]
